@@ -371,7 +371,9 @@ pub fn buffered_input_from_reader_with_limit<'a, R: Read + 'a>(
     let error: ReaderInputError = Rc::new(RefCell::new(None));
 
     let br = BufReader::new(Box::new(decoder) as DynReader<'a>);
-    let char_iter = ChunkedChars::new(br, max_bytes, error.clone());
+    // The gate owns the size limit (raw bytes). ChunkedChars' own count is of DECODED bytes: for
+    // UTF-16 text of three-byte characters it would refuse input whose raw size fits the limit.
+    let char_iter = ChunkedChars::new(br, None, error.clone());
     let tail = char_iter.tail();
 
     (BufferedInput::new(char_iter), error, tail)
